@@ -9,6 +9,7 @@ import XrsVerif.Proofs.ILViewshedRotR
 import XrsVerif.Proofs.ILViewshedSucc
 import XrsVerif.Proofs.ILViewshedInsProg
 import XrsVerif.Proofs.ILViewshedDel
+import XrsVerif.Proofs.ILViewshedLift
 import Mathlib.Tactic.Positivity
 /-
   C05 -- viewshed marks a cell visible exactly when the line-of-sight model says so.
@@ -829,6 +830,44 @@ theorem generated_left_rotation_preserves (s : State (NV α)) (fuel n : Nat) (hv
   simp only [atPath] at hp
   exact ⟨rotL smallestK t0, h, hp.1.1, fun hb => (hp.2.1 hb).1, fun ha => (hp.2.2.1 ha).1, fun he => (hp.2.2.2 he).1⟩
 
+/-- **a generated rotation anywhere in the tree is one `Rebal` step of the model**: run at `NV α` at a position (`ctx`) of a
+    well-linked tree holding the image of `t0`, the generated `_left_rotate` leaves a well-linked tree without repeated rows
+    that holds `atPath (rotL S) p t0` (`p` the path to the position) -- so it keeps the node list, BST, AugLe and Exact
+    (`rotate_preserves`) and every relation `Rel` (`fixups_preserve`); likewise `_right_rotate` -/
+theorem generated_rotation_at_path (s : State (NV α)) (fuel n : Nat) (hv : VS s n) (hrun : s.ctl = .run) (ctx : ILVs.Ctx)
+    (a : Sh) (x : Nat) (b : Sh) (y : Nat) (c : Sh) (t0 : Viewshed.Tree α)
+    (hS : vAt (s.fa "tree_vals") (n - 1) 7 = smallest) :
+    (Linked (s.ia "tree_nodes") n (-1) (plug (.node a x (.node b y c)) ctx) →
+      (plug (.node a x (.node b y c)) ctx).idxs.Nodup → s.ienv "x" = x →
+      absT (s.fa "tree_vals") (s.ia "tree_nodes") (plug (.node a x (.node b y c)) ctx) = mapT emb t0 →
+      let q := Gen.IL.vsLeftRotate.run s fuel
+      let t1 := atPath (rotL smallestK) (pathOf ctx) t0
+      q.ctl = .ret ∧ Linked (q.ia "tree_nodes") n (-1) (plug (.node (.node a x b) y c) ctx) ∧
+        (plug (.node (.node a x b) y c) ctx).idxs.Nodup ∧
+        absT (q.fa "tree_vals") (q.ia "tree_nodes") (plug (.node (.node a x b) y c) ctx) = mapT emb t1 ∧
+        t1.toList = t0.toList ∧ (BST t0 → BST t1) ∧ (AugLe smallestK t0 → AugLe smallestK t1) ∧
+        (∀ (d : Node α) (st : List (Node α)), Rel smallestK d t0 st → Rel smallestK d t1 st)) ∧
+    (Linked (s.ia "tree_nodes") n (-1) (plug (.node (.node a x b) y c) ctx) →
+      (plug (.node (.node a x b) y c) ctx).idxs.Nodup → s.ienv "y" = y →
+      absT (s.fa "tree_vals") (s.ia "tree_nodes") (plug (.node (.node a x b) y c) ctx) = mapT emb t0 →
+      let q := Gen.IL.vsRightRotate.run s fuel
+      let t1 := atPath (rotR smallestK) (pathOf ctx) t0
+      q.ctl = .ret ∧ Linked (q.ia "tree_nodes") n (-1) (plug (.node a x (.node b y c)) ctx) ∧
+        (plug (.node a x (.node b y c)) ctx).idxs.Nodup ∧
+        absT (q.fa "tree_vals") (q.ia "tree_nodes") (plug (.node a x (.node b y c)) ctx) = mapT emb t1 ∧
+        t1.toList = t0.toList ∧ (BST t0 → BST t1) ∧ (AugLe smallestK t0 → AugLe smallestK t1) ∧
+        (∀ (d : Node α) (st : List (Node α)), Rel smallestK d t0 st → Rel smallestK d t1 st)) := by
+  have hp := rotate_preserves (α := α) smallestK (pathOf ctx) (t := t0)
+  refine ⟨fun hL hN hx habs => ?_, fun hL hN hy habs => ?_⟩
+  · obtain ⟨r1, _, r3, r4, r5, _, _⟩ := vsLeftRotate_at_path s fuel n hv hrun ctx a x b y c hL hN hx
+    rw [habs, hS, smallest_emb, atPath_emb _ _ (rotL_emb smallestK)] at r5
+    exact ⟨r1, r3, r4, r5, hp.1.1, fun h => (hp.2.1 h).1, fun h => (hp.2.2.1 h).1,
+      fun d st hr => fixups_preserve (Rebal.rotL (pathOf ctx) (Rebal.refl _)) hr⟩
+  · obtain ⟨r1, _, r3, r4, r5, _, _⟩ := vsRightRotate_at_path s fuel n hv hrun ctx a x b y c hL hN hy
+    rw [habs, hS, smallest_emb, atPath_emb _ _ (rotR_emb smallestK)] at r5
+    exact ⟨r1, r3, r4, r5, hp.1.2, fun h => (hp.2.1 h).2, fun h => (hp.2.2.1 h).2,
+      fun d st hr => fixups_preserve (Rebal.rotR (pathOf ctx) (Rebal.refl _)) hr⟩
+
 /-- the small routines: `_find_value_min_value` is `minv`; `_tree_minimum` returns the row of the first node in order;
     `_search_for_node` returns NIL exactly when the model's `contains` is false -/
 theorem generated_small_routines (s : State F) (fuel n : Nat) (hv : VS s n) (hrun : s.ctl = .run) :
@@ -976,6 +1015,12 @@ example [Trig ℚ] : (Gen.IL.vsDelete.run { exState with fenv := fun _ => some 7
     exState_holds.linked (by decide) rfl (by decide)).1 ?_
   simp [absT, nodeAt, vAt, nAt, exState, exVals, exNodes, exShape, Tree.contains, fv_lt]
   norm_num
+
+example [Trig ℚ] :
+    absT ((Gen.IL.vsLeftRotate.run exState 0).fa "tree_vals") ((Gen.IL.vsLeftRotate.run exState 0).ia "tree_nodes")
+      (.node (.node (.node .nil 1 .nil) 0 .nil) 2 .nil) = mapT emb (rotL smallestK exTree) :=
+  ((generated_rotation_at_path exState 0 4 exState_holds.vs rfl [] (.node .nil 1 .nil) 0 .nil 2 .nil exTree
+    exState_holds.nil).1 exState_holds.linked (by decide) rfl exState_holds.abs).2.2.2.1
 
 end Generated
 
